@@ -50,7 +50,12 @@ const (
 
 var opNames = [...]string{"none", "resume", "yield", "spawn", "exit", "Mutex.Lock", "Mutex.Unlock", "RWMutex.Lock", "RWMutex.Lock(drain)", "RWMutex.Unlock", "RWMutex.RLock", "RWMutex.RUnlock", "WaitGroup.Add", "WaitGroup.Wait", "chan send", "chan recv", "close", "select", "sleep", "choose", "quiesce", "note", "atomic load"}
 
-func (k opKind) String() string { return opNames[k] }
+func (k opKind) String() string {
+	if int(k) < len(opNames) {
+		return opNames[k]
+	}
+	return fmt.Sprintf("op%d", int(k))
+}
 
 const maxSel = 6
 
@@ -103,6 +108,11 @@ type thread struct {
 	// sleep bookkeeping
 	wake  time.Duration
 	woken bool // another thread performed an operation since this thread went to sleep
+	// happens-before hashing (hb.go)
+	h    hv
+	nobj int
+	// prio: the default scheduler prefers lower values (rt.GoPrio); all enabled threads remain alternatives.
+	prio int
 }
 
 // ChoicePoint is one recorded decision.
@@ -114,6 +124,7 @@ type ChoicePoint struct {
 	// enabled (a preemption), else 0.
 	AltCost int
 	Label   string
+	Key     Key // state key before the decision (Options.Keys, positions beyond the replayed prefix)
 }
 
 // Exec is the record of one execution.
@@ -129,6 +140,9 @@ type Exec struct {
 	Events   []Event  // rt.Emit events (always recorded), in execution order
 	Aborted  string   // engine-level abort reason (step limit, replay divergence)
 	VirtualT time.Duration
+	// Pruned: Options.Visit stopped the execution at a choice point whose state had been expanded before; the record
+	// ends before that choice point and must not be judged by an oracle.
+	Pruned bool
 }
 
 // Event is a harness observation recorded through the scheduler (so that harness threads share no memory).
@@ -151,18 +165,28 @@ func (x *Exec) Cost() int {
 }
 
 type rwState struct {
+	hobj
 	wslot     *thread // holder of the inner writer mutex (from phase 1 to Unlock)
 	announced bool
 	writer    bool // phase 2 completed: the writer holds the lock
 	readers   int
 }
-type muState struct{ held bool }
-type wgState struct{ n int }
+type muState struct {
+	hobj
+	held bool
+}
+type wgState struct {
+	hobj
+	n int
+}
 type chMsg struct {
 	v   any
 	tok unsafe.Pointer
+	h   hv
 }
 type chState struct {
+	hobj
+	backH    []hv // chain values of completed receives, in order (back edges of a buffered channel)
 	cap      int
 	buf      []chMsg
 	closed   bool
@@ -190,6 +214,15 @@ type sched struct {
 	idle    int     // consecutive clock jumps without any operation of a thread other than the woken sleeper
 	jumper  *thread // the sleeper woken by the last clock jump
 	swCost  int
+	// happens-before hashing (hb.go)
+	keys    bool
+	chooser *thread // the thread on whose behalf choose() is being called (nil: scheduling decision)
+	visit   func(i int, k Key, cost int) bool
+	ids     map[unsafe.Pointer]uint64
+	at      map[unsafe.Pointer]*atState
+	objSum  hv
+	logH    hv
+	cost    int
 }
 
 var (
@@ -210,6 +243,12 @@ type Options struct {
 	// finished. 0 = classic preemption bounding (such switches are free and all enumerated); 1 = deviation
 	// bounding (the default successor is the lowest-numbered enabled thread, any other choice is a deviation).
 	SwitchCost int
+	// Keys makes the actor compute a happens-before state key at every choice point beyond the prefix (hb.go).
+	Keys bool
+	// Visit, if set (implies Keys), is asked at every choice point beyond the prefix, before the decision is taken,
+	// with the index of the choice point, its state key and the deviation cost spent so far; returning true ends
+	// the execution there (Exec.Pruned).
+	Visit func(i int, k Key, cost int) bool
 }
 
 // Run executes body as thread 0 under the scheduler and returns the execution record. Only one Run at a time per
@@ -222,6 +261,7 @@ func Run(o Options, body func()) *Exec {
 		reqCh: make(chan request), prefix: o.Prefix, x: &Exec{}, trace: o.Trace, maxStep: o.MaxSteps, swCost: o.SwitchCost,
 		rw: map[unsafe.Pointer]*rwState{}, mu: map[unsafe.Pointer]*muState{}, wg: map[unsafe.Pointer]*wgState{}, ch: map[unsafe.Pointer]*chState{},
 		done: make(chan struct{}),
+		keys: o.Keys || o.Visit != nil, visit: o.Visit, ids: map[unsafe.Pointer]uint64{}, at: map[unsafe.Pointer]*atState{},
 	}
 	if s.maxStep == 0 {
 		s.maxStep = 200000
@@ -242,6 +282,7 @@ func (s *sched) newThread(name string) *thread {
 	t := &thread{id: len(s.threads), name: name, gate: make(chan grant, 1), st: tAtOp}
 	t.req = request{t: t, kind: opResume}
 	t.ready = &grant{}
+	t.h = hv{1, 2}
 	s.threads = append(s.threads, t)
 	return t
 }
@@ -368,6 +409,11 @@ func (s *sched) immediate(t *thread) bool {
 			return false
 		}
 		m.held = false
+		if s.keys {
+			t.h = t.h.op(r.kind).mix(s.oid(t, r.obj))
+			m.rel = t.h
+			s.touchMu(t, r.obj, m)
+		}
 	case opWUnlock:
 		w := s.rwOf(r.obj)
 		if !w.writer {
@@ -375,6 +421,11 @@ func (s *sched) immediate(t *thread) bool {
 			return false
 		}
 		w.writer, w.announced, w.wslot = false, false, nil
+		if s.keys {
+			t.h = t.h.op(r.kind).mix(s.oid(t, r.obj))
+			w.rel, w.relR = t.h, hv{}
+			s.touchRW(t, r.obj, w)
+		}
 	case opRUnlock:
 		w := s.rwOf(r.obj)
 		if w.readers <= 0 {
@@ -382,12 +433,22 @@ func (s *sched) immediate(t *thread) bool {
 			return false
 		}
 		w.readers--
+		if s.keys {
+			t.h = t.h.op(r.kind).mix(s.oid(t, r.obj))
+			w.relR = w.relR.add(t.h)
+			s.touchRW(t, r.obj, w)
+		}
 	case opWgAdd:
 		w := s.wgOf(r.obj)
 		w.n += r.n
 		if w.n < 0 {
 			s.crashThread(t, "sync: negative WaitGroup counter")
 			return false
+		}
+		if s.keys {
+			t.h = t.h.op(r.kind).mix(s.oid(t, r.obj)).mix(uint64(int64(r.n)))
+			w.relR = w.relR.add(t.h)
+			s.touchWg(t, r.obj, w)
 		}
 	case opClose:
 		c := s.chOf(r.obj, r.n)
@@ -397,8 +458,24 @@ func (s *sched) immediate(t *thread) bool {
 		}
 		c.closed = true
 		c.closeTok = r.tok
+		if s.keys {
+			t.h = t.h.op(r.kind).mix(s.oid(t, r.obj))
+			c.rel = t.h
+			s.touchCh(t, r.obj, c)
+		}
 		// parked senders on a closed channel panic when they are scheduled (see enabled/perform).
+	case opAtomicStore:
+		if s.keys && r.obj != nil {
+			a := s.atOf(r.obj)
+			t.h = t.h.op(r.kind).mix(s.oid(t, r.obj)).mixh(a.rel)
+			a.rel = t.h
+			s.touchAt(t, r.obj, a)
+		}
 	case opNote:
+		if s.keys {
+			t.h = t.h.op(r.kind).mix(strHash(r.label))
+			s.logH = s.logH.mixh(t.h)
+		}
 		if r.val != nil || r.n == 1 {
 			s.x.Events = append(s.x.Events, Event{Thread: t.id, Name: t.name, Label: r.label, Val: r.val})
 		} else {
@@ -579,14 +656,25 @@ func (s *sched) choose(kind string, n, altCost int, label string) int {
 			c = 0
 		}
 	}
-	s.x.Choices = append(s.x.Choices, ChoicePoint{Kind: kind, N: n, Chosen: c, AltCost: altCost, Label: label})
+	cp := ChoicePoint{Kind: kind, N: n, Chosen: c, AltCost: altCost, Label: label}
+	if s.keys && i >= len(s.prefix) {
+		cp.Key = s.stateKey(kind, s.chooser)
+		if s.visit != nil && s.visit(i, cp.Key, s.cost) {
+			s.x.Pruned = true
+			return 0
+		}
+	}
+	if c > 0 {
+		s.cost += altCost
+	}
+	s.x.Choices = append(s.x.Choices, cp)
 	return c
 }
 
 // schedule picks the next thread, performs its pending operation and grants it. It returns false when the
 // execution is over.
 func (s *sched) schedule() bool {
-	if s.x.Crash != "" || s.x.Aborted != "" {
+	if s.x.Crash != "" || s.x.Aborted != "" || s.x.Pruned {
 		return false
 	}
 	for {
@@ -620,7 +708,8 @@ func (s *sched) schedule() bool {
 			}
 			continue
 		}
-		// canonical order: the thread that ran last first (if still enabled), then ascending ids.
+		// canonical order: the thread that ran last first (if still enabled), then ascending (priority, id).
+		sort.SliceStable(en, func(i, j int) bool { return en[i].prio < en[j].prio })
 		curEnabled := false
 		if last != nil {
 			for i, t := range en {
@@ -638,14 +727,15 @@ func (s *sched) schedule() bool {
 			if curEnabled {
 				cost = 1
 			}
+			s.chooser = nil
 			idx = s.choose("sched", len(en), cost, s.schedLabel(en))
-			if s.x.Aborted != "" {
+			if s.x.Aborted != "" || s.x.Pruned {
 				return false
 			}
 		}
 		t := en[idx]
 		if !s.perform(t) {
-			if s.x.Crash != "" || s.x.Aborted != "" {
+			if s.x.Crash != "" || s.x.Aborted != "" || s.x.Pruned {
 				return false
 			}
 			continue // the operation moved to a second phase (RWMutex.Lock) or completed a partner; re-schedule
@@ -677,28 +767,81 @@ func (s *sched) perform(t *thread) bool {
 	case opResume:
 		g = *t.ready
 		t.ready = nil
-	case opYield, opAtomicLoad:
-	case opQuiesce:
-	case opSleep:
+	case opYield:
+		if s.keys {
+			t.h = t.h.op(r.kind)
+		}
+	case opAtomicLoad:
+		if s.keys {
+			t.h = t.h.op(r.kind)
+			if r.obj != nil {
+				a := s.atOf(r.obj)
+				t.h = t.h.mix(s.oid(t, r.obj)).mixh(a.rel)
+				if r.n == 1 { // read-modify-write
+					a.rel = t.h
+					s.touchAt(t, r.obj, a)
+				}
+			}
+		}
+	case opQuiesce, opSleep:
+		if s.keys {
+			t.h = t.h.op(r.kind)
+		}
 	case opSpawn:
 		nt := s.newThread(r.label)
+		nt.prio = r.n
 		g.thr = nt
+		if s.keys {
+			nt.h = t.h.op(opSpawnChild)
+			t.h = t.h.op(r.kind)
+		}
 	case opChoose:
+		s.chooser = t
 		g.idx = s.choose("choose", r.n, r.cost, r.label)
+		s.chooser = nil
+		if s.x.Pruned {
+			return false
+		}
+		if s.keys {
+			t.h = t.h.op(r.kind).mix(uint64(g.idx))
+		}
 	case opMLock:
-		s.muOf(r.obj).held = true
+		m := s.muOf(r.obj)
+		m.held = true
+		if s.keys {
+			t.h = t.h.op(r.kind).mix(s.oid(t, r.obj)).mixh(m.rel)
+			s.touchMu(t, r.obj, m)
+		}
 	case opWLock1:
 		w := s.rwOf(r.obj)
 		w.wslot = t
 		w.announced = true
+		if s.keys {
+			t.h = t.h.op(r.kind).mix(s.oid(t, r.obj))
+			s.touchRW(t, r.obj, w)
+		}
 		r.kind = opWLock2
 		s.lastT = t
 		return false
 	case opWLock2:
-		s.rwOf(r.obj).writer = true
+		w := s.rwOf(r.obj)
+		w.writer = true
+		if s.keys {
+			t.h = t.h.op(r.kind).mix(s.oid(t, r.obj)).mixh(w.rel).mixh(w.relR)
+			s.touchRW(t, r.obj, w)
+		}
 	case opRLock:
-		s.rwOf(r.obj).readers++
+		w := s.rwOf(r.obj)
+		w.readers++
+		if s.keys {
+			t.h = t.h.op(r.kind).mix(s.oid(t, r.obj)).mixh(w.rel)
+			s.touchRW(t, r.obj, w)
+		}
 	case opWgWait:
+		if s.keys {
+			w := s.wgOf(r.obj)
+			t.h = t.h.op(r.kind).mix(s.oid(t, r.obj)).mixh(w.relR)
+		}
 	case opSend:
 		if !s.doSend(t, r.obj, r.n, r.val, r.tok, &g) {
 			return false
@@ -716,12 +859,23 @@ func (s *sched) perform(t *thread) bool {
 		switch {
 		case len(ready) == 0:
 			g.idx = -1 // default
+			if s.keys {
+				t.h = t.h.op(opSelDefault)
+			}
 		default:
 			k := 0
 			if len(ready) > 1 {
+				s.chooser = t
 				k = s.choose("select", len(ready), 0, "")
+				s.chooser = nil
+				if s.x.Pruned {
+					return false
+				}
 			}
 			i := ready[k]
+			if s.keys {
+				t.h = t.h.mix(0x5e1ec7<<8 | uint64(i))
+			}
 			g.idx = i
 			c := &r.cases[i]
 			if c.send {
@@ -766,12 +920,21 @@ func (s *sched) doSend(t *thread, p unsafe.Pointer, cap int, v any, tok unsafe.P
 		return false
 	}
 	if len(c.buf) < c.cap {
-		c.buf = append(c.buf, chMsg{v: v, tok: tok})
 		// back edge: the (k-cap)-th receive happens before the k-th send completes
 		if k := c.sent - c.cap; k >= 0 && k < len(c.back) {
 			g.acq[0] = c.back[k]
 		}
+		if s.keys {
+			t.h = t.h.op(opSend).mix(s.oid(t, p))
+			if k := c.sent - c.cap; k >= 0 && k < len(c.backH) {
+				t.h = t.h.mixh(c.backH[k])
+			}
+		}
+		c.buf = append(c.buf, chMsg{v: v, tok: tok, h: t.h})
 		c.sent++
+		if s.keys {
+			s.touchCh(t, p, c)
+		}
 		return true
 	}
 	// rendezvous with a parked receiver
@@ -789,6 +952,13 @@ func (s *sched) doSend(t *thread, p unsafe.Pointer, cap int, v any, tok unsafe.P
 	g.acq[0] = o.req.tok // the receive happens before the send completes
 	c.sent++
 	c.back = append(c.back, o.req.tok)
+	if s.keys {
+		id := s.oid(t, p)
+		ht, ho := t.h, o.h
+		t.h = ht.op(opSend).mix(id).mixh(ho)
+		o.h = ho.op(opRecv).mix(id).mix(uint64(og.idx)).mixh(ht)
+		c.backH = append(c.backH, o.h)
+	}
 	o.req = request{t: o, kind: opResume}
 	o.ready = og
 	return true
@@ -802,6 +972,11 @@ func (s *sched) doRecv(t *thread, p unsafe.Pointer, cap int, tok unsafe.Pointer,
 		g.val, g.ok = m.v, true
 		g.acq[0] = m.tok
 		c.back = append(c.back, tok)
+		if s.keys {
+			t.h = t.h.op(opRecv).mix(s.oid(t, p)).mixh(m.h)
+			c.backH = append(c.backH, t.h)
+			s.touchCh(t, p, c)
+		}
 		return
 	}
 	if o := s.partner(t, p, true); o != nil && !c.closed {
@@ -823,12 +998,22 @@ func (s *sched) doRecv(t *thread, p unsafe.Pointer, cap int, tok unsafe.Pointer,
 		o.ready.acq[0] = tok
 		c.sent++
 		c.back = append(c.back, tok)
+		if s.keys {
+			id := s.oid(t, p)
+			ht, ho := t.h, o.h
+			t.h = ht.op(opRecv).mix(id).mixh(ho)
+			o.h = ho.op(opSend).mix(id).mix(uint64(o.ready.idx)).mixh(ht)
+			c.backH = append(c.backH, t.h)
+		}
 		o.req = request{t: o, kind: opResume}
 		return
 	}
 	// closed and drained
 	g.val, g.ok = nil, false
 	g.acq[0] = c.closeTok
+	if s.keys {
+		t.h = t.h.op(opRecvClosed).mix(s.oid(t, p)).mixh(c.rel)
+	}
 }
 
 // finish ends the execution: census of unfinished threads, then they are killed one at a time.
